@@ -130,13 +130,21 @@ def main():
                 rm_worktree(wt)
     elif a[0] == "run":
         sel = a[1:]
-        for sid in sorted(os.listdir(os.path.join(VERIF, "seeded"))):
-            if sel and not any(sid.startswith(s) for s in sel): continue
+        jobs = 1
+        if "-j" in sel:
+            i = sel.index("-j"); jobs = int(sel[i + 1]); del sel[i:i + 2]
+        sids = [sid for sid in sorted(os.listdir(os.path.join(VERIF, "seeded")))
+                if os.path.isdir(os.path.join(VERIF, "seeded", sid)) and (not sel or any(sid.startswith(s) for s in sel))]
+        def one(sid):
             dst = os.path.join(VERIF, "seeded", sid)
             meta = json.load(open(os.path.join(dst, "meta.json")))
             res = run_checks(os.path.join(dst, "patch.diff"), meta["checked_properties"], tier)
             meta.setdefault("check_results", {})[tier] = res
             json.dump(meta, open(os.path.join(dst, "meta.json"), "w"), indent=1)
-            print(sid, {p: ("ALARM" if r["exit"] == 1 else "quiet" if r["exit"] == 0 else "exit%d" % r["exit"]) for p, r in res.items()} if "error" not in res else res, flush=True)
+            return sid, res
+        import concurrent.futures as cf
+        with cf.ThreadPoolExecutor(jobs) as ex:
+            for sid, res in ex.map(one, sids):
+                print(sid, {p: ("ALARM" if r["exit"] == 1 else "quiet" if r["exit"] == 0 else "exit%d" % r["exit"]) for p, r in res.items()} if "error" not in res else res, flush=True)
 
 main()
